@@ -7,6 +7,7 @@ package main
 import (
 	"fmt"
 	"strconv"
+	"time"
 
 	corev1 "k8s.io/api/core/v1"
 	discoveryv1 "k8s.io/api/discovery/v1"
@@ -14,6 +15,8 @@ import (
 	"k8s.io/apimachinery/pkg/util/intstr"
 
 	networking "istio.io/api/networking/v1alpha3"
+	security "istio.io/api/security/v1beta1"
+	typev1beta1 "istio.io/api/type/v1beta1"
 	"istio.io/istio/pkg/config/schema/gvk"
 	"istio.io/istio/pkg/ptr"
 	"verifharness/internal/wire"
@@ -202,6 +205,48 @@ func init() {
 		mk("se1", "default", httpPort(), &networking.ServicePort{Number: 9000, Name: "tcp", Protocol: "TCP"}, &networking.ServicePort{Number: 443, Name: "tls", Protocol: "TLS"})
 		mk("se2", "ns1", httpPort(), &networking.ServicePort{Number: 9000, Name: "tcp", Protocol: "TCP"})
 		mk("se3", "ns2", httpPort())
+	}
+}
+
+func init() {
+	// C17-13: the per-port inbound passthrough filter chains (ports with port-level mTLS that no Service exposes)
+	// were built in map iteration order over the port-level settings.
+	witnessMeshes["port-level-mtls-passthrough"] = func(g *mgen) {
+		g.addCfg("peerauthentication", g.meta(gvk.PeerAuthentication, "pa", "ns1"), &security.PeerAuthentication{
+			Selector: &typev1beta1.WorkloadSelector{MatchLabels: map[string]string{"app": "a"}},
+			Mtls:     &security.PeerAuthentication_MutualTLS{Mode: security.PeerAuthentication_MutualTLS_PERMISSIVE},
+			PortLevelMtls: map[uint32]*security.PeerAuthentication_MutualTLS{
+				8080: {Mode: security.PeerAuthentication_MutualTLS_DISABLE}, 9000: {Mode: security.PeerAuthentication_MutualTLS_STRICT},
+				9001: {Mode: security.PeerAuthentication_MutualTLS_DISABLE}, 7070: {Mode: security.PeerAuthentication_MutualTLS_STRICT},
+			},
+		})
+	}
+}
+
+func init() {
+	// C17-14: a waypoint (or router) used the sidecars' lazily computed default scope of its namespace when one was
+	// cached - i.e. once a sidecar of the namespace had been served from the same sidecar index - and the scope computed
+	// for gateways otherwise; the two resolve a hostname defined in two namespaces differently. The harness serves the
+	// waypoint before the sidecar and derives every third PushContext incrementally (sidecar index carried over).
+	witnessMeshes["gateway-scope-history"] = func(g *mgen) {
+		g.node0()
+		g.waypointItself()
+		m0 := g.meta(gvk.ServiceEntry, "se0", "ns1")
+		m0.Labels = map[string]string{"istio.io/use-waypoint": waypointName, "istio.io/use-waypoint-namespace": "default"}
+		g.addTwinned("serviceentry", m0, &networking.ServiceEntry{Hosts: []string{"ext2.example.com", "db.example.com", "*.wild.example.com"},
+			Ports: []*networking.ServicePort{httpPort()}, Resolution: networking.ServiceEntry_STATIC,
+			Endpoints: []*networking.WorkloadEntry{{Address: "10.20.0.1", Labels: map[string]string{"version": "v1"}}}})
+		m1 := g.meta(gvk.ServiceEntry, "se1", "default")
+		m1.CreationTimestamp = t0.Add(time.Second)
+		m1.Labels = map[string]string{"istio.io/use-waypoint": waypointName}
+		g.addTwinned("serviceentry", m1, &networking.ServiceEntry{Hosts: []string{"*.wild.example.com", "api.example.com", "db.example.com"},
+			Ports: []*networking.ServicePort{httpPort(), {Number: 443, Name: "https", Protocol: "TLS"}}, Resolution: networking.ServiceEntry_STATIC,
+			Endpoints: []*networking.WorkloadEntry{{Address: "10.20.1.1", Labels: map[string]string{"version": "v1"}}}})
+		r := &networking.HTTPRoute{Route: []*networking.HTTPRouteDestination{
+			{Destination: &networking.Destination{Host: "api.example.com", Port: &networking.PortSelector{Number: 9000}}, Weight: 20},
+			{Destination: &networking.Destination{Host: "ext2.example.com", Port: &networking.PortSelector{Number: 80}}, Weight: 30},
+			{Destination: &networking.Destination{Host: "*.wild.example.com", Port: &networking.PortSelector{Number: 8080}}, Weight: 50}}}
+		g.addCfg("virtualservice", g.meta(gvk.VirtualService, "vs0", rootNS), &networking.VirtualService{Hosts: []string{"db.example.com"}, Http: []*networking.HTTPRoute{r}})
 	}
 }
 
